@@ -4,7 +4,7 @@
    aiotarstream.py + extract_tar_stream as they are now in /repo (after the fix: commits 733cb27, 9f2640a);
    [true] is the code before them.  A stream is the list of chunks the underlying reader delivers. *)
 From Coq Require Import List NArith Lia.
-From SF Require Import TarStream.Model TarStream.Proofs TarStream.Trunc.
+From SF Require Import TarStream.Model TarStream.Proofs TarStream.Trunc TarStream.Roundtrip.
 Import ListNotations.
 Local Open Scope N_scope.
 
@@ -97,6 +97,21 @@ Proof. exact write_archive_block_aligned. Qed.
 Theorem C23_writer_record_aligned_partial : forall ms, lenN (write_archive ms) mod 10240 = 0.
 Proof. exact write_archive_record_aligned. Qed.
 
+(* ---- header writer (Model.tobuf = TarInfo.tobuf(GNU_FORMAT), tied to the real writer's bytes by the
+   correspondence): every numeric field written by itn is read back by nti, every string field written by stn
+   is read back by nts, for all values that fit.  Partial: the block-level statement
+   frombuf (hdr_block ...) = HOk ... and members_flat (write_archive (map tobuf ms)) = ms are NOT proved
+   (draft in design/notes/C23_frombuf_hdr_block.v.txt). ---- *)
+Theorem C23_roundtrip_octal_field_partial : forall k n r,
+  n < pow8 (S k) -> nti (oct_digits (S k) n ++ 0 :: r) = NOk n.
+Proof. exact nti_digits. Qed.
+Theorem C23_roundtrip_string_field_partial : forall s len,
+  Forall (fun b => b <> 0) s -> lenN s <= len -> nts (stn s len) = s.
+Proof. exact nts_stn. Qed.
+Example C23_roundtrip_field_examples :
+  nti (itn12 700) = NOk 700 /\ nts (stn [100;47;97] 100) = [100;47;97] /\ lenN (tobuf {| h_name := [100]; h_mode := 493; h_size := 0; h_type := 53; h_link := [] |} meta0) = 512.
+Proof. vm_compute. repeat split; reflexivity. Qed.
+
 Print Assumptions C23_chunking. Print Assumptions C23_chunking_reference. Print Assumptions C23_chunking_members.
 Print Assumptions C23_read_is_the_python_loop. Print Assumptions C23_read_exact.
 Print Assumptions C23_no_partial_file. Print Assumptions C23_no_partial_member.
@@ -106,3 +121,4 @@ Print Assumptions C23_corrupt_header_fails_refuted. Print Assumptions C23_legacy
 Print Assumptions C23_legacy_no_partial_member_refuted. Print Assumptions C23_legacy_hang_refuted.
 Print Assumptions C23_writer_padding_partial. Print Assumptions C23_writer_block_aligned_partial.
 Print Assumptions C23_writer_record_aligned_partial.
+Print Assumptions C23_roundtrip_octal_field_partial. Print Assumptions C23_roundtrip_string_field_partial.
